@@ -38,6 +38,11 @@ def directed(method, rnd):
     out.append(('off-single-max-unused', [('L', 3), ('L', 4)], K(off_single=(1 << OB) - 1)))
     out.append(('all-distance-widths', [('L', 5)] + [('C', min(window, 1 << b), 3) for b in range(0, window.bit_length())]
                 + [('C', max(1, min(window, (1 << b) - 1)), 4) for b in range(1, window.bit_length() + 1)], K()))
+    # every distance the dictionary permits, once each (after enough output exists so that most are not pre-fill reads)
+    if window <= 8192 or rnd.random() < 2:
+        step = 1 if window <= 65536 else 7
+        warm = [('L', (i * 37) & 0xff) for i in range(300)] + [('C', 300, 256)] * (min(window, 70000) // 256 + 1)
+        out.append(('every-distance', warm + [('C', d, 3 + (d % 5)) for d in range(1, window + 1, step)], K()))
     if lhark:
         out.append(('lk7-all-lengths', [('L', 1)] + [('C', 1, n) for n in range(3, 515)], K()))
         out.append(('lk7-all-distance-codes', [('L', 1)] + [('C', d + 1, 3) for d in
